@@ -125,10 +125,39 @@ def build_zoo(cfg):
     return impl.build_sim(dict(cfg, interventions=[]), extra_interventions=intv)
 
 
+def shared_config():
+    """ Always-exercised configuration of the family "one helper object consulted by several scheduled functions of one step":
+        ONE ss.AgeGroup (a callable with a per-step cache) is the source of one separately scheduled MixingPool, the destination
+        of a second one and the eligibility of a routine vaccination; a second AgeGroup is shared by the second pool and a second
+        vaccination; both pools share one ss.beta object and one product-free contacts family.  Deaths change the population
+        between steps, so a stale cache shows. """
+    return dict(shared='agegroups', n_agents=400, rand_seed=5, unit='year', dt=1.0, start=2000, dur=6, cut=15,
+                disease=dict(beta=0.1, init_prev=0.1, dur_inf=4, p_death=0.1), pool_beta=0.3, contacts=3.0,
+                vx=[dict(name='kids_vx', group='kids', prob=0.5, efficacy=0.9), dict(name='adult_vx', group='adults', prob=0.2, efficacy=0.7)],
+                death_rate=30, dur_dists=None)
+
+
+def build_shared(cfg):
+    import starsim as ss
+    kids = ss.AgeGroup(0, cfg['cut']); adults = ss.AgeGroup(cfg['cut'], None)
+    groups = dict(kids=kids, adults=adults)
+    beta = ss.beta(cfg['pool_beta'])
+    school = ss.MixingPool(name='school', src=kids, dst=None, beta=beta, contacts=ss.poisson(lam=cfg['contacts']))
+    home = ss.MixingPool(name='home', src=adults, dst=kids, beta=beta, contacts=ss.poisson(lam=cfg['contacts']))
+    vxs = [ss.routine_vx(name=v['name'], eligibility=groups[v['group']], prob=v['prob'], product=ss.sir_vaccine(name=v['name'] + '_prod', efficacy=v['efficacy']))
+           for v in cfg['vx']]
+    d = cfg['disease']
+    sir = ss.SIR(beta=ss.beta(d['beta']), init_prev=d['init_prev'], dur_inf=d['dur_inf'], p_death=d['p_death'])
+    return ss.Sim(n_agents=cfg['n_agents'], rand_seed=cfg['rand_seed'], unit=cfg['unit'], dt=cfg['dt'], start=cfg['start'], dur=cfg['dur'], verbose=0,
+                  diseases=sir, networks=[school, home], interventions=vxs, demographics=[ss.Deaths(death_rate=cfg['death_rate'])])
+
+
 def build(cfg):
     """ impl.build_sim plus an optional own timestep / duration distribution for the diseases (copied from impl.build_sim, which
         has no such options) """
     import starsim as ss
+    if cfg.get('shared'):
+        return build_shared(cfg)
     if 'dur_dists' not in cfg and 'disease_dt_ratio' not in cfg:
         return build_zoo(cfg)       # plain impl format (zoo entries); this module's own generators always set dur_dists
     pars = dict(n_agents=cfg['n_agents'], rand_seed=cfg.get('rand_seed', 1), verbose=0)
@@ -500,11 +529,11 @@ def correspond(ctx):
     from harness import zoo
     with tempfile.TemporaryDirectory(prefix='c09_') as tmpdir:
         # generated configurations (3 scripts each), then every entry of the scenario zoo (1 script each)
-        todo = [(None, None)] * (nconf + 1) + list(zoo.configs())
+        todo = [(None, None)] * (nconf + 2) + list(zoo.configs())
         for ci, (zname, zcfg) in enumerate(todo):
             pre = f'[zoo:{zname}] ' if zname else ''
             try:
-                cfg = zcfg if zname else (fixed_config() if ci == 0 else gen_config(ctx.rng))
+                cfg = zcfg if zname else (fixed_config() if ci == 0 else shared_config() if ci == 1 else gen_config(ctx.rng))
                 probe = fresh_sim(cfg)
                 nplan, nfuncs = len(probe.loop.plan), len(probe.loop.funcs)
                 desc0 = c08.describe(probe)
@@ -843,6 +872,35 @@ def oracle_zoo(cfg, plan, tmpdir):
     return fails
 
 
+def search_shared(ctx, tmpdir):
+    """ helper objects shared by several scheduled functions of one step (shared_config): a pause at EVERY boundary of one whole
+        step (so also between any two functions that consult the same object, whichever they are) x every copy-based restore
+        (quick: all three modes between two acting functions `step` / `step_state`, one rotating mode at the other boundaries), twins on
+        alternate boundaries """
+    cfg = shared_config()
+    try:
+        probe = fresh_sim(cfg)
+        labels = list(probe.loop.plan.func_label); names = list(probe.loop.plan.func_name)
+        starts = [i for i, l in enumerate(labels) if l == 'sim.start_step']; ends = [i for i, l in enumerate(labels) if l == 'sim.finish_step']
+        s = 2 + ctx.seed % 2
+        ks = list(range(starts[s], ends[s] + 2))
+    except Exception as e:
+        ctx.count('shared_exceptions'); ctx.notes['last_shared_exception'] = f'{type(e).__name__}: {e}'; return
+    for k in ks:
+        acting = k < len(labels) and k > 0 and names[k - 1] in ('step', 'step_state') and names[k] in ('step', 'step_state')
+        modes = MODES[1:] if (ctx.thorough or acting) else [MODES[1 + (k + ctx.seed) % 3]]
+        for mode in modes:
+            twin = k % 2 == 0
+            try:
+                fails = oracle_pause(cfg, k, mode, twin, tmpdir)
+            except Exception as e:
+                ctx.count('shared_exceptions'); ctx.notes['last_shared_exception'] = f'k={k} {mode}: {type(e).__name__}: {e}'; continue
+            ctx.count('shared_pauses'); ctx.count('oracle_mode_' + mode)
+            between = f'{labels[k - 1] if k else "-"} | {labels[k] if k < len(labels) else "-"}'
+            for f_sig, f_what in fails:
+                ctx.fail(dict(f_sig, boundary='step-sweep'), f'[shared-objects, between {between}] ' + f_what, dict(kind='pause', cfg=cfg, k=k, mode=mode, twin=twin))
+
+
 def search_zoo(ctx, tmpdir):
     """ every zoo configuration under one pause / restore / resume variant (rotating with the entry number and the seed) """
     from harness import zoo
@@ -890,6 +948,8 @@ def search(ctx):
         ctx.count('oracle_multisim')
         for f_sig, f_what in oracle_guards(fx):
             ctx.fail(f_sig, f_what, dict(kind='guards', cfg=fx))
+        # --- always exercised: objects shared by several scheduled functions of one step, every boundary of a step
+        search_shared(ctx, tmpdir)
         # --- always exercised: the fixed zoo of unusual-but-valid configurations
         search_zoo(ctx, tmpdir)
         for i in range(nconf):
